@@ -6,3 +6,11 @@ chk("C08", "exploration",
     "Every case (build, updates, fit, statistics) runs in a child process under a CPU-time watchdog with an event stream; panics, signals and cases that do not return within the budget (twice, isolated) are violations. Both overflow-checked and release profiles.",
     "Non-termination is decided in the restated form 'returns within 10 CPU-seconds (30 isolated)'; models honour the trait contract (shapes) by construction.",
     "process-boundary watchdog + panic events over hostile IEEE-754 workloads", "5/C08")
+chk("C09", "fault_enumeration",
+    "Exhaustive fault enumeration over every model-call index of recorded scenarios (build, caller history with queries, fit, statistics) x {transient, persistent}; a shadow model over the ModelSpy call/return log predicts absence, present values are compared bitwise with a fresh fault-free problem.",
+    "Exhaustive only within the enumerated scenarios; parallel scenarios assign call indices to derivative calls in schedule order, the shadow model reads the log so the verdict is schedule independent.",
+    "fault injection at every call index + shadow-model monitor over the event log", "5/C09")
+chk("C12", "exploration",
+    "Sweeps every (M,P) in 1..6 x 1..4 with N from 1 to M+P+3 in child processes of the overflow-checked and release builds; checks Ok => N>M+P and the three identities, and Err (never a panic) for under-determined fits, failed fits and a model failing at every call of the statistics stage.",
+    "Ok is not demanded for N>M+P; identities are checked between reported quantities with rounding-level tolerances.",
+    "process-boundary panic events + identity monitor over a shape sweep, two build profiles", "5/C12")
